@@ -35,9 +35,9 @@ PROPS = {
 TIERS = {
     # units per tier (each unit = one scenario under several schedules)
     "C02": {"quick": 2400, "thorough": 24000},
-    "C03": {"quick": 8000, "thorough": 100000},
+    "C03": {"quick": 11000, "thorough": 100000},
     "C04": {"quick": 6400, "thorough": 64000},
-    "C05": {"quick": 9000, "thorough": 120000},
+    "C05": {"quick": 14000, "thorough": 120000},
     "C06": {"quick": 9600, "thorough": 64000},
     "C07": {"quick": 6400, "thorough": 64000},
 }
